@@ -24,7 +24,7 @@ def c20_epilogue(steps, i):
     fails after the parameter change was executed), the end of its voting period, a restart, and Ethereum
     transactions (contract creation included) on the restarted and on the continuous node."""
     np = sum(1 for st in steps if st.get("ev") == "block" for t in st.get("txs", [])
-             if t.get("k") in ("gov_submit", "gov_submit2", "gov_toggle", "gov_evm_params", "gov_coinomics"))
+             if t.get("k") in ("gov_submit", "gov_submit2", "gov_toggle", "gov_evm_params", "gov_coinomics", "gov_erc20_params"))
     pid = np + 1
     blk = lambda dt, txs: {"ev": "block", "dt": dt, "proposer": 0, "absent": [], "evidence": [], "txs": txs}
     votes = [{"k": "gov_vote", "from": "v%d" % v, "id": pid, "opt": "yes"} for v in (1, 2, 3)]
